@@ -192,6 +192,10 @@ type c13acct struct {
 	acct     *types.StateAccount
 	code     []byte
 	storage  *c13trie
+	// an adversarial slot: its stored value (the RLP of 31 bytes, 32 bytes in all) equals the hash of
+	// forgedNode, so that a walk which takes a leaf's value for a child reference would continue into it
+	forgedSlotKey []byte
+	forgedNode    []byte
 }
 
 type c13trie struct {
@@ -284,6 +288,17 @@ func buildState(rs *prng, nAcc int, number uint64) *c13world {
 			for _, sk := range c13Keys(rs, 1+rs.intn(12)) {
 				v, _ := rlp.EncodeToBytes(rs.bytes(1 + rs.intn(31))) // small values: embedded nodes appear
 				skv[string(sk)] = v
+			}
+			if i == 0 {
+				for {
+					forged, _ := rlp.EncodeToBytes([]any{append([]byte{0x20}, rs.bytes(3)...), rs.bytes(8)})
+					if h := crypto.Keccak256(forged); h[0] == 0x9f {
+						a.forgedNode = forged
+						a.forgedSlotKey = rs.bytes(32)
+						skv[string(a.forgedSlotKey)] = h // = RLP of the 31 bytes h[1:]
+						break
+					}
+				}
 			}
 			a.storage = buildTrie(skv)
 			a.acct.Root = a.storage.root
@@ -417,7 +432,7 @@ func genC13(r *prng) *plan {
 	p.Cfg["hdrsrc"] = int64(r.intn(3)) // 0 preloaded in the history store, 1 served by H, 2 served by B (lying allowed)
 	n := 3 + r.intn(7)
 	for i := 0; i < n; i++ {
-		p.Ops = append(p.Ops, opSpec{K: "offer", N: []int64{int64(r.intn(3)), int64(r.intn(18)), int64(r.intn(3)), int64(r.u64() >> 1)}})
+		p.Ops = append(p.Ops, opSpec{K: "offer", N: []int64{int64(r.intn(3)), int64(r.intn(20)), int64(r.intn(3)), int64(r.u64() >> 1)}})
 		if r.chance(25) {
 			// the same key from two peers at once: an honest item and, arriving a little later, a corrupted
 			// one (both are accepted when no in-flight verdict exists, i.e. over version 0)
@@ -539,6 +554,16 @@ func runC13(seed uint64) {
 			return e
 		})
 		w.runFor(8 * time.Second)
+		if desc == "unknown-block-hash" {
+			// the same item once more: what was rejected because its header could not be found must not
+			// pass the second time on the strength of whatever header the validator looked at last
+			w.call("offer-again", 120*time.Second, func() error {
+				_, e := offerer.offerTo(V.self(), portalwire.State, vv, [][]byte{key}, [][]byte{val})
+				return e
+			})
+			w.runFor(8 * time.Second)
+			w.probe("unknown_block_offered_twice")
+		}
 		all = append(all, offered{key, val, store, why, desc})
 		w.op("offer#%d kind=%s %s (%d bytes) -> accepted=%d ok=%v err=%v; oracle: %s", opi, []string{"account-node", "storage-node", "bytecode"}[kind], desc, len(val), acc, okc, err != nil, orBound(why))
 		w.abstract("offer k%d m%d acc%d valid=%v", kind, mut, acc, why == "")
@@ -702,6 +727,24 @@ func c13Item(rs *prng, w1, w2 *c13world, kind int64, mut int) (key, val []byte, 
 		return p
 	}
 	switch mut {
+	case 18:
+		// a block nobody knows: the header lookup fails
+		desc = "unknown-block-hash"
+		blockHash = rs.bytes(32)
+	case 19:
+		// the genuine proof down to a storage leaf whose value happens to be the hash of a forged node,
+		// followed by that node, under a key naming the full path and the forged node's hash
+		if a0 := w1.accts[0]; kind == 1 && a0.forgedNode != nil {
+			desc = "forged-node-after-leaf"
+			acct = a0
+			accNodes, _ = w1.accounts.nodesOnPath(acct.addrHash)
+			accountProof = accNodes
+			addrHash = append([]byte{}, acct.addrHash...)
+			sn, _ := acct.storage.nodesOnPath(acct.forgedSlotKey)
+			nodes = append(append([][]byte{}, sn...), acct.forgedNode)
+			path = hashNibbles(acct.forgedSlotKey)
+			nodeHash = crypto.Keccak256(acct.forgedNode)
+		}
 	case 1:
 		desc = "other-block-hash"
 		blockHash = w2.hash[:]
